@@ -153,6 +153,9 @@ class QTankRun:
             return None
         if k == "ds":
             return cv(p, t.ds())
+        if k == "reinit":
+            t.reinit()
+            return None
 
 
 class ArcRun:
@@ -280,7 +283,7 @@ def predicates(fam, cls, op, b, r, a, hist):
                            f"+ growth of reported decay {strs(vsubt(da, db))}")
             if not vle(db, da):
                 bad("C11", f"{cls}: push lowered the reported decay {strs(db)} -> {strs(da)}")
-        elif k not in ("push", "end", "pull", "pullexact") and da != db:
+        elif k not in ("push", "end", "pull", "pullexact", "reinit") and da != db:
             bad("C11", f"{cls}: {k} changed the reported decay {strs(db)} -> {strs(da)}")
 
     # ---- C06: nothing negative
@@ -551,6 +554,10 @@ def run_case(fam, c, pids, rep, stats):
                     sched.usable = vsubt(sched.usable, r)
                 elif k == "end":
                     sched.end()
+                elif k == "reinit":
+                    # a re-initialised tank is an empty one: nothing usable, nothing under way; delays count as before
+                    sched.usable = vzero_like(sched.usable)
+                    sched.future = {}
                 if "C09" in pids and (a["act"] != sched.usable or a["sto"] != sched.total()):
                     viols.append(("C09", f"QueueTank after {k} (op {i}): usable {strs(a['act'])} / contents {strs(a['sto'])} but the "
                                   f"delay schedule gives usable {strs(sched.usable)} / contents {strs(sched.total())}", None, i))
@@ -589,7 +596,7 @@ def monitor(rep, pid, families, n, maxops, cases_extra=None):
         gen = K.FAMILIES[fam][0]
         r = C.rng(f"mon_{pid}_{fam}")
         cases = [unforce(FAMILY_OF.get(fam, fam), gen(r, maxops)) for _ in range(n)]
-        cases = list(cases_extra.get(fam, []) if cases_extra else []) + cases
+        cases = [unforce(FAMILY_OF.get(fam, fam), dict(c)) for c in (cases_extra.get(fam, []) if cases_extra else [])] + cases
         cnt = 0
         for c in cases:
             try:
